@@ -67,9 +67,9 @@ impl Quil for CircuitDefinition {
                 true => instruction.to_quil_or_debug(),
                 false => instruction.to_quil()?,
             };
-            for line in lines.split('\n') {
-                writeln!(writer, "{INDENT}{line}")?;
-            }
+            // Indent the instruction as a whole: a newline inside its text can only belong to a
+            // quoted string, whose continuation must not be re-indented.
+            writeln!(writer, "{INDENT}{lines}")?;
         }
 
         Ok(())
